@@ -64,6 +64,17 @@ def expected(name, L, U, n):
         a, b = n // 3, n - 1 - (1 if n > 3 else 0)
         exp["U%d_%d" % (a, b)] = flat([r[a:b + 1] for r in D[a:b + 1]])
         exp["TU%d_%d" % (a, b)] = flat([r[a:b + 1] for r in Dt[a:b + 1]])
+        m = b - a + 1
+        Ds = [r[a:b + 1] for r in D[a:b + 1]]
+        for k in range(-(m - 1), m):
+            exp["UG%d" % k] = [str(Ds[t][t + k]) for t in range(m - k)] if k >= 0 else [str(Ds[t - k][t]) for t in range(m + k)]
+            W = [r[:] for r in D]
+            for t in range(m - abs(k)):
+                i, j = (a + t, a + t + k) if k >= 0 else (a + t - k, a + t)
+                W[i][j] = -7
+                if KIND[name] == 2:
+                    W[j][i] = -7
+            exp["UW%d" % k] = flat(W)
     return exp, D
 
 
@@ -139,7 +150,7 @@ def check(run, replay=None):
     cov["samples"] = [{"config": sections(impl[40])[0], "line": impl[40][:300]}] if len(impl) > 40 else []
     cov["rule"] = ("all typedef'd kinds (Square row/col, Diag, Tridiag, Pentadiag, Symm both orientations, Lower/Upper both orders) plus general bands (1,2) (2,0) (0,3) (3,3) (2,1), "
                    "sizes 1..7 (bands wider than the matrix included); per configuration: all (i,j) element reads, conversion to dense, T(), T().T(), diag_vector(k) for every stored "
-                   "diagonal of the matrix and of its transpose, submatrix_on_diagonal of both, S+2S, S.T()+S, assignment from a dense expression, single-element write; integer data. "
+                   "diagonal of the matrix and of its transpose, submatrix_on_diagonal of both, diag_vector(k) of the sub-matrix view for every stored diagonal (read) and one of them written through to the parent, S+2S, S.T()+S, assignment from a dense expression, single-element write; integer data. "
                    "Each section is compared with the dense equivalent computed in Python and with the model generated from the source. Non-trivial = size >= 3. "
                    "Column-major band engines are reachable only through T() (their passive lvalue accessor does not compile).")
     cov["traces_validated_against_impl"] = cov["evaluations"]
